@@ -116,7 +116,8 @@ def check(prog, run):
         run.bad("R1", "builder-gets-taken-queue", "no local call in flush_segment receives mem::take(&mut self.%s)" % q)
         return
     # ---- R2
-    v, ns, ne = purity.check_function(cx, FLUSH, exit_kinds=("err",), variant=("None",))
+    # None exits: explicit `return None` and the residual of `opt?` (e.g. `self.samples.first()?`)
+    v, ns, ne = purity.check_function(cx, FLUSH, exit_kinds=("err", "residual"), variant=("None",))
     run.check(ne >= 1, "R2", "flush-has-none-exit", "%d None exit(s)" % ne, "flush_segment has no None exit any more (anchor)")
     if not v:
         run.ok("R2", "none-exit-pure", "%d store site(s), none reaches the None exit" % ns)
